@@ -28,6 +28,15 @@ CAP_BITS = 511  # every OverflowType bit except ITERATIONS (1<<9) and LS_ITERATI
 ITER_BITS = (1 << 9) | (1 << 10)
 
 
+def step_viol(mjm):
+  """Violation threshold for comparisons after a whole step(): RK4 evaluates forward() four times at states that
+  depend on the previous stage's solver output, which amplifies legitimate round-off level differences
+  (reordered sums) through contact-manifold changes; only gross differences are judged there."""
+  import mujoco
+
+  return 0.3 if mjm.opt.integrator == mujoco.mjtIntegrator.mjINT_RK4 else 1e-2
+
+
 def gate(ofA, wa, ofB, wb):
   """None if world wa of execution A may be compared with world wb of B, else the reason.
 
@@ -134,6 +143,9 @@ def compare_contacts(rec, tag, ca, cb, sig_prefix="", tol_round=1e-4, tol_viol=1
   La, Fa = contact_features(ca)
   Lb, Fb = contact_features(cb)
   same, dist = multiset_diff(La, Fa, Lb, Fb)
+  if not same and tol_viol > 0.1:
+    rec.inconcl("contacts: discrete structure differs in an amplified (multi-stage) comparison")
+    return "incon"
   if not same:
     rec.viol(
       f"{sig_prefix}contacts:multiset",
@@ -161,6 +173,9 @@ def row_features(r):
 def compare_rows(rec, tag, ra, rb, sig_prefix="", tol_round=1e-4, tol_viol=1e-2, with_force=False):
   rec.check()
   for k in ("ne", "nf", "nl", "nefc_raw"):
+    if ra[k] != rb[k] and tol_viol > 0.1:
+      rec.inconcl("efc: row counts differ in an amplified (multi-stage) comparison")
+      return "incon"
     if ra[k] != rb[k]:
       rec.viol(f"{sig_prefix}efc:{k}", f"{k} differs {ra[k]} vs {rb[k]} {tag}")
       return "viol"
@@ -170,6 +185,9 @@ def compare_rows(rec, tag, ra, rb, sig_prefix="", tol_round=1e-4, tol_viol=1e-2,
     Fa = np.concatenate([Fa, ra["force"].reshape(-1, 1)], axis=1)
     Fb = np.concatenate([Fb, rb["force"].reshape(-1, 1)], axis=1)
   same, dist = multiset_diff(La, Fa, Lb, Fb)
+  if not same and tol_viol > 0.1:
+    rec.inconcl("efc: row types differ in an amplified (multi-stage) comparison")
+    return "incon"
   if not same:
     rec.viol(f"{sig_prefix}efc:multiset", f"constraint row type multisets differ {tag}")
     return "viol"
